@@ -45,6 +45,7 @@ type Case struct {
 var (
 	workers  = flag.Int("workers", 8, "")
 	progress = flag.Bool("progress", false, "")
+	big      = flag.Int("big", 0, "run the big-concurrent-repeats scenario this many times instead of reading cases")
 	racy     = flag.Bool("concurrent", false, "deliver every bulk twice concurrently (concurrent repeats)")
 	outMu    sync.Mutex
 	evals    atomic.Int64
@@ -265,8 +266,76 @@ func run(c *Case) {
 	}
 }
 
+// bigRepeats: a bulk of many documents delivered several times AT ONCE into one active fraction (a proxy retry racing
+// the original, index workers running in parallel). Redeliver.tla's delivery is set union: every document counted once
+// in total, histogram, the fraction's document count - before and after sealing.
+func bigRepeats(rounds int) int {
+	bad := 0
+	for r := 0; r < rounds; r++ {
+		e, err := env.New(env.Opts{SkipFsync: true, Workers: 4})
+		if err != nil {
+			emit(map[string]any{"infra": err.Error()})
+			os.Exit(3)
+		}
+		const n = 20000
+		var ds []env.Doc
+		for i := 0; i < n; i++ {
+			ds = append(ds, env.Doc{MID: uint64(1000 + i%50), RID: cases.Widen(uint64(1+i%100)) ^ uint64(i), Tok: map[string][]string{"k": {"t"}, "g": {grpOf(i)}}, Body: fmt.Sprintf(`{"i":%d}`, i)})
+		}
+		// 40 bulks of 500 documents; four deliverers walk through all of them side by side, so that the same bulk is
+		// in the indexer several times at once again and again
+		var wg sync.WaitGroup
+		for k := 0; k < 4; k++ {
+			wg.Add(1)
+			go func() {
+				defer wg.Done()
+				for b := 0; b < n; b += 500 {
+					e.Bulk(ds[b : b+500])
+				}
+			}()
+		}
+		wg.Wait()
+		e.WaitIdle()
+		check := func(stage string) {
+			all := &cases.AST{Op: "all"}
+			ast, _ := all.Build()
+			res, err := e.SearchAST(ast, env.Params{From: 0, To: 1 << 40, Limit: 10, Order: "desc", WithTotal: true, Interval: 1})
+			evals.Add(1)
+			var docsTotal uint32
+			for _, f := range e.FM().GetAllFracs() {
+				docsTotal += f.Info().DocsTotal
+			}
+			var hist uint64
+			if res != nil {
+				for _, c := range res.Hist {
+					hist += c
+				}
+			}
+			switch {
+			case err != nil:
+				bad++
+				emit(map[string]any{"n": -1 - r, "op": "bulk", "what": stage + ": search error: " + err.Error(), "scenario": "big concurrent repeats"})
+			case res.Total != n || hist != n || docsTotal != n:
+				bad++
+				emit(map[string]any{"n": -1 - r, "op": "bulk", "scenario": "big concurrent repeats",
+					"what": fmt.Sprintf("%s: %d distinct documents delivered 4 times at once: total %d, histogram sum %d, fractions' DocsTotal %d", stage, n, res.Total, hist, docsTotal)})
+			}
+		}
+		check("active")
+		e.Seal()
+		check("sealed")
+		e.Close()
+	}
+	return bad
+}
+
 func main() {
 	flag.Parse()
+	if *big > 0 {
+		bigRepeats(*big)
+		emit(map[string]any{"summary": true, "cases": *big, "evals": evals.Load(), "nontrivial": *big, "corpora": *big})
+		return
+	}
 	sc := bufio.NewScanner(os.Stdin)
 	sc.Buffer(make([]byte, 1<<20), 1<<26)
 	w := *workers
